@@ -2,9 +2,14 @@
    Model: Exec.record_history (_record_history), resolve_history (_resolve_history_target), Snap.persist / restore.
    Tied to the code by K-macro on history machines (shallow / deep, compound / parallel parents, nested, with default
    targets; never / once / repeatedly visited) and by C12's snapshot check (harness/props/c11.py).
-   PARTIAL: these theorems say WHAT is remembered and WHAT a history target expands to; that entering the expansion
-   yields exactly the remembered sub-configuration is the entry characterisation of Props/C01.v (enter_spec). *)
-From XSM Require Import Model.Macro Model.Snap Proofs.HistP.
+   These theorems say WHAT is remembered and WHAT a history target expands to; C11_restored_states_active: every
+   state the target expands to is active after the transition; C11_restore_is_legal: the configuration the transition
+   leaves is legal (so exactly one leaf per region: the restored one), and what is remembered is always taken from a legal
+   configuration (C11_store_consistent) - Proofs/HistoryP.v.
+   PARTIAL: 'each restored state is entered once' is the tree characterisation of the entered set (C01_tree_entry_legal)
+   plus the monitor; that the restored sub-configuration equals the remembered one state by state is decided by the
+   correspondence. *)
+From XSM Require Import Model.Macro Model.Snap Proofs.HistP Proofs.LegalP Proofs.DescentP Proofs.HistoryP.
 
 (* what is recorded is the active sub-configuration at the LAST exit that involved the parent: each time states are
    about to be exited, every history-owning state on their ancestor chains that has active proper descendants gets
@@ -47,6 +52,29 @@ Theorem C11_shallow : forall m H h p x rest,
   | [] => x :: rest | l => l end.
 Proof. exact resolve_shallow. Qed.
 Print Assumptions C11_shallow.
+
+(* every state the history target expands to is active when the transition completes ... *)
+Theorem C11_restored_states_active : forall m, wf m = true -> forall eng pr t tgt ev s0 s1 y,
+  exec_external eng pr m t tgt ev s0 = (s1, None) -> is_history m tgt = true ->
+  In y (resolve_history m (s_hist s0) tgt) -> y < size m -> In (find_domain m (t_src t) tgt) (ancestors m y) ->
+  In y (s_cfg s1).
+Proof. exact history_targets_active. Qed.
+Print Assumptions C11_restored_states_active.
+
+(* ... in a LEGAL configuration (one active child per compound state, every region of a parallel state: the restored
+   states and nothing beside them in their regions) ... *)
+Theorem C11_restore_is_legal : forall m, wf m = true -> good_initials m = true -> forall eng pr t tgt ev s0 s1,
+  Legal m (s_cfg s0) -> HistOK m (s_hist s0) -> In (t_src t) (s_cfg s0) ->
+  tgt < size m -> is_history m tgt = true -> hist_static_ok m tgt ->
+  exec_external eng pr m t tgt ev s0 = (s1, None) -> Legal m (s_cfg s1).
+Proof. exact history_transition_legal. Qed.
+Print Assumptions C11_restore_is_legal.
+
+(* ... and what is remembered always comes from a legal configuration *)
+Theorem C11_store_consistent : forall m l s,
+  Legal m (s_cfg s) -> HistOK m (s_hist s) -> HistOK m (s_hist (record_history m l s)).
+Proof. exact record_history_histok. Qed.
+Print Assumptions C11_store_consistent.
 
 (* the same whether the history was recorded in this interpreter or came back from a snapshot *)
 Theorem C11_snapshot_same : forall m s r,
